@@ -5,6 +5,8 @@ from __future__ import annotations
 from itertools import chain
 from typing import TYPE_CHECKING
 
+from .pairs import Position
+
 if TYPE_CHECKING:
     from pest.state import ParserState
 
@@ -197,23 +199,8 @@ def join_with_limit(  # noqa: PLR0911
 
 def error_context(text: str, index: int) -> tuple[str, int, int]:
     """Return a (line, lineno, col) tuple for position `index` in `text`."""
-    if not text:
-        return ("", 1, 0)
-
+    # Same arithmetic as `Position.line_col()`.
+    line_number, column_number = Position(text, max(index, 0)).line_col()
     lines = text.splitlines(keepends=True)
-    cumulative_length = 0
-    target_line_index = len(lines) - 1
-
-    for i, line in enumerate(lines):
-        cumulative_length += len(line)
-        if index < cumulative_length:
-            target_line_index = i
-            break
-
-    # Line number (1-based)
-    line_number = target_line_index + 1
-    # Column number within the line
-    column_number = index - (cumulative_length - len(lines[target_line_index])) + 1
-    current_line = lines[target_line_index].rstrip()
-
+    current_line = lines[line_number - 1].rstrip() if line_number <= len(lines) else ""
     return (current_line, line_number, column_number)
